@@ -46,7 +46,8 @@ func verdict(doc *CReplay, path, class, detail string) int {
 func Reevaluate(doc *CReplay) (class, detail string) {
 	env := NewEnv()
 	defer env.Close()
-	b := env.NewBatch(&gen.Prog{Pkg: doc.Pkg})
+	_, loadTest := doc.Files["src/"+doc.Pkg+"/"+loadTestFile]
+	b := env.NewBatch(&gen.Prog{Pkg: doc.Pkg, LoadTest: loadTest})
 	b.WriteSources() // go.mod, go.sum, main.go
 	for p, t := range doc.Files {
 		if p == "function" {
